@@ -1,5 +1,5 @@
 """C06 — state machine and claim invariants hold on every path."""
-from .. import common, framework, fndiff, cmdrun, gen, oracles
+from .. import common, framework, fndiff, cmdrun, gen, oracles, explore2
 from ..histories import run_history, fieldset, replay_trace
 
 
@@ -103,6 +103,14 @@ def run(ctx):
         return False
     for i in range(4 if ctx.quick else 60):
         c10.io_faults(ctx, r.fork(), prop="C06", torn=(i % 2 == 1), post_oracle=inv_after_fault)
+    # two processes moving the *same* task: each decision must be taken on the state the task has under the decider's lock — a transition or
+    # claim rule validated against a snapshot read before the lock lets a forbidden move through (A parked before / inside / after its section)
+    def post(g):
+        bad = oracles.inv06(g)
+        return ("inv %s" % bad[0][0], "state/claim invariant broken: %s" % (bad[0],)) if bad else None
+    for i in range(5 if ctx.quick else 60):
+        explore2.explore(ctx, "C06", r.fork(), kindsA=(("set_same",) if i % 3 != 2 else ("claim_id", "set+state")), kindsB=(("set_same",) if i % 3 != 2 else ("set+state", "reopen", "close")),
+                         max_points=(6 if ctx.quick else 40), state_cmds=8, post_oracle=post)
     for h in range(25 if ctx.quick else 400):
         run_history(ctx, r.fork(), 30, WEIGHTS, oracle)
     ctx.cov["rule"] = ("exhaustive buildSetEvents table (state × claimed × kind × field-presence × values × agent) model vs Go; "
@@ -112,6 +120,8 @@ def run(ctx):
 
 
 def replay(ctx, doc):
+    if explore2.is_schedule_replay(doc):
+        return explore2.replay(ctx, doc, post_oracle=lambda g: (lambda bad: ("inv %s" % bad[0][0], str(bad[0])) if bad else None)(oracles.inv06(g)))
     st = replay_trace(ctx, doc["replay"]["trace"])
     try:
         bad = oracles.inv06(st.graph()["graph"])
